@@ -141,12 +141,12 @@ int32 psEccCopyKey(psEccKey_t *to, psEccKey_t *from)
     if ((rc = pstm_init_copy(to->pool, &to->pubkey.y, &from->pubkey.y, 0))
         != PSTM_OKAY)
     {
-        goto error;
+        goto error_x;
     }
     if ((rc = pstm_init_copy(to->pool, &to->pubkey.z, &from->pubkey.z, 0))
         != PSTM_OKAY)
     {
-        goto error;
+        goto error_y;
     }
 
     /* privkey */
@@ -155,15 +155,22 @@ int32 psEccCopyKey(psEccKey_t *to, psEccKey_t *from)
         if ((rc = pstm_init_copy(to->pool, &to->k, &from->k, 0))
             != PSTM_OKAY)
         {
-            goto error;
+            goto error_z;
         }
     }
+    return rc;
 
+    /* Release what has been copied into the destination so far. The source
+       is left alone: it may be a key shared between sessions. */
+error_z:
+    pstm_clear(&to->pubkey.z);
+error_y:
+    pstm_clear(&to->pubkey.y);
+error_x:
+    pstm_clear(&to->pubkey.x);
 error:
-    if (rc < 0)
-    {
-        psEccClearKey(from);
-    }
+    to->curve = NULL;
+    to->type = 0;
     return rc;
 }
 
